@@ -391,6 +391,7 @@ class Executor:
         self.trace = False
         self.typeids = {}
         self.merge = False
+        self.call_log_names = set()
         self.record_divs = False
         self.merge_budget = 4000
         self._ipdom = {}
@@ -1495,6 +1496,8 @@ class Executor:
     def op_call(self, st, fr, ins):
         name = self.resolve_callee(st, fr, ins)
         args = [self.val(st, fr, t, v) for t, v in ins.b]
+        if name in self.call_log_names:
+            st.log.append((name, list(args)))
         h = self.summaries.get(name)
         if h is not None:
             r = h(self, st, args, ins)
